@@ -469,6 +469,8 @@ def exact_inverse(F, rows, check=True):
     dm = DomainMatrix([[down(q) for q in pr] for pr in P], (N, N), small.to_domain())
     try:
         num, den = dm.inv_den()
+    except CaseTimeout:
+        raise
     except Exception as e:  # DMNonInvertibleMatrixError
         raise SingularSystem(f"the matrix returned by build_system is singular ({type(e).__name__})")
     if den == 0:
@@ -745,9 +747,10 @@ class Cases:
     * a case exceeding its budget is skipped (reported on stderr); a *required* case that times out is an engine error,
       so that a run can never pass by skipping everything."""
 
-    def __init__(self, c, unit, budget_s=55.0):
+    def __init__(self, c, unit, budget_s=50.0):
         self.c = c
         self.unit = unit
+        Shadow()                  # warm-up (imports cobyqa / scipy / sympy.polys) outside of every case budget
         self.t_end = time.time() + budget_s * (6 if THOROUGH else 1)
         self.skipped = []
         self.timings = []
